@@ -52,6 +52,14 @@ func asSlice(k any) (sliceKey, bool, error) {
 		return sliceKey{}, false, nil
 	}
 	var sk sliceKey
+	// a slice key has both members (jq: "Start and end indices of an array slice must be numbers"; null stands for
+	// an open end); an object without them is not a key at all
+	if _, hasS := m["start"]; !hasS {
+		return sk, true, fmt.Errorf("expected \"start\" and \"end\" for slicing but got: %s", univ.Canon(k))
+	}
+	if _, hasE := m["end"]; !hasE {
+		return sk, true, fmt.Errorf("expected \"start\" and \"end\" for slicing but got: %s", univ.Canon(k))
+	}
 	if s, ok := m["start"]; ok && s != nil {
 		i, ok := asInt(s)
 		if !ok {
@@ -111,7 +119,7 @@ func RefGetpath(v any, path []any) (any, error) {
 		if v == nil {
 			// navigating null yields null for any well-formed key
 			switch k.(type) {
-			case string, map[string]any, nil:
+			case string, map[string]any, nil, []any:
 				continue
 			}
 			if _, ok := univ.NumOf(k); ok {
@@ -133,6 +141,21 @@ func RefGetpath(v any, path []any) (any, error) {
 				}
 				s, e := sk.bounds(len(c))
 				v = c[s:e:e]
+				continue
+			}
+			if sub, isArr := k.([]any); isArr {
+				// an array indexed by an array: the positions where it occurs as a sub-array (null for the empty one)
+				if len(sub) == 0 {
+					v = nil
+					continue
+				}
+				pos := []any{}
+				for i := 0; i+len(sub) <= len(c); i++ {
+					if univ.Equal(any(c[i:i+len(sub)]), any(sub)) {
+						pos = append(pos, i)
+					}
+				}
+				v = pos
 				continue
 			}
 			i, ok := asInt(k)
